@@ -11,7 +11,7 @@ header, extension or data block of another file — is a violation, whatever the
 The flag order is observed on the real code as well: the harness tracks the on-disk bitmap-valid flag at every block
 write and reports a bitmap page rewritten while the flag is set (floppies and hardfiles with 3-4 bitmap pages)."""
 import os, re, json, vlib, gen, hist, fsck
-from props import histprop
+from props import histprop, undel
 PID = "C18"
 MUT = ("mkdir", "remove", "rename", "comment", "access", "open", "write", "trunc", "flush", "close", "seek", "read")
 
@@ -191,6 +191,10 @@ def run(res):
             for ops0, b in ex.map(one_short, extra[:72]):
                 for m in b: bad.append((ops0, m))
         res.cov["failing_input_search_histories"] = len(extra[:72])
+    if not bad:
+        # undelete (not modelled): after restoring entries, later allocations must not land on their blocks
+        for o, m in undel.probe(res, exe, 10 if res.tier == "quick" else 150):
+            if "later write landed" in m or "marked free" in m or "reached twice" in m: bad.append((o, m))
     if bad:
         ops, m = bad[0]
         res.violation(f"C18: {m}", dict(kind="history", ops=ops, complaint=m), True)
